@@ -624,3 +624,16 @@ Proof.
   eexists. eexists. split; [reflexivity|].
   rewrite !td_decode_eq by assumption. change (inject_Z 0) with 0. split; field; split; lra.
 Qed.
+
+(* ================================================================== E. instances of a single-instance frame (C12 F62 variants) *)
+Lemma si_frame_one_instance : forall fixed integral pts k p a,
+  nth_error pts k = Some (Some p, Some a) -> si_frame_instances fixed integral pts = [pts].
+Proof.
+  intros fixed integral pts k p a H. unfold si_frame_instances.
+  destruct (forallb (row_is_nan integral) pts) eqn:E; [|rewrite andb_false_r; reflexivity].
+  rewrite forallb_forall in E. apply nth_error_In in H. apply E in H. discriminate.
+Qed.
+
+Lemma si_frame_no_detection : forall integral pts, forallb (row_is_nan integral) pts = true ->
+  si_frame_instances true integral pts = [] /\ si_frame_instances false integral pts = [pts].
+Proof. intros integral pts H. unfold si_frame_instances. rewrite H. split; reflexivity. Qed.
